@@ -6,6 +6,7 @@ import (
 	"go/types"
 	"regexp"
 	"sort"
+	"strconv"
 	"strings"
 )
 
@@ -307,10 +308,18 @@ func checkC18(c *Check) {
 	})
 	// basictl
 	for _, b := range loadBasictl(c) {
+		maxF, curF := "", ""
 		if ir := b.ir("RandomUint"); ir != nil {
 			t := irText(ir)
-			b.ob("random/zero-at-depth-limit", "RandomUint", strings.HasPrefix(t, "if (ctx:RandGenerator.maxDepth <= ctx:RandGenerator.curDepth)\n  return #0\n"), "returns 0 first thing once curDepth >= maxDepth")
+			// the two counters are identified by their roles here (limit <= current → 0), not by their names
+			if m := regexp.MustCompile(`^if \(ctx:RandGenerator\.(\w+) <= ctx:RandGenerator\.(\w+)\)\n  return #0\n`).FindStringSubmatch(t); m != nil && m[1] != m[2] {
+				maxF, curF = m[1], m[2]
+			}
+			b.ob("random/zero-at-depth-limit", "RandomUint", maxF != "", "returns 0 first thing once the depth counter has reached the depth limit (fields: limit="+maxF+" counter="+curF+")")
 		} else {
+			continue
+		}
+		if maxF == "" {
 			continue
 		}
 		if ir := b.ir("RandomSize"); ir != nil {
@@ -324,12 +333,18 @@ func checkC18(c *Check) {
 		}
 		if fi := b.byName["NewRandGenerator"]; fi != nil {
 			t := irText(b.ir("NewRandGenerator"))
-			okDepth := strings.Contains(t, "maxDepth:((dyn:ctx:Rand.Uint32() % #4) + #2)") && strings.Contains(t, "curDepth:#0")
+			okDepth := strings.Contains(t, curF+":#0")
+			if m := regexp.MustCompile(regexp.QuoteMeta(maxF) + `:(?:\(\(dyn:ctx:Rand\.Uint32\(\) % #\d+\) \+ )?#(\d+)\)?[,}]`).FindStringSubmatch(t); m != nil {
+				lo, _ := strconv.Atoi(m[1])
+				okDepth = okDepth && lo >= 1
+			} else {
+				okDepth = false
+			}
 			src := nodeSrc(fi)
 			m1 := regexp.MustCompile(`SizeHandler:\s+func\((\w+) uint32\) uint32 \{\s*return (\w+)\s*\}`).FindStringSubmatch(src)
 			m2 := regexp.MustCompile(`FieldMaskHandler:\s+func\((\w+) uint32, \w+ uint32\) uint32 \{\s*return (\w+)\s*\}`).FindStringSubmatch(src)
 			okHandlers := m1 != nil && m1[1] == m1[2] && m2 != nil && m2[1] == m2[2]
-			b.ob("random/depth-limit-positive", "NewRandGenerator", okDepth, "maxDepth = r.Uint32()%4 + 2 (at least 2), curDepth starts at 0")
+			b.ob("random/depth-limit-positive", "NewRandGenerator", okDepth, "the depth limit is a constant >= 1 or (draw % k) + constant >= 1, the counter starts at 0")
 			b.ob("random/zero-at-depth-limit", "NewRandGenerator/default-handlers", okHandlers, "the default size and field-mask handlers are the identity (a zero draw stays zero)")
 		}
 		// the depth bracket is balanced: IncreaseDepth adds one unconditionally and DecreaseDepth takes one back (a guard
@@ -337,7 +352,7 @@ func checkC18(c *Check) {
 		// way down drops below the real depth after a bracket entered at the limit, and the limit no longer holds.
 		incT, decT := "", ""
 		for _, m := range b.co.allFuncs() {
-			if !strings.HasSuffix(m.Pkg.PkgPath, b.pkg) {
+			if m.Pkg.PkgPath != "github.com/VKCOM/tl/"+b.pkg {
 				continue
 			}
 			switch m.Name() {
@@ -347,8 +362,9 @@ func checkC18(c *Check) {
 				decT = irText(buildFuncIR(m, b.funcs, b.co.Fset))
 			}
 		}
-		incOK := incT == "assign item.curDepth += #1\n" || incT == "assign item.curDepth ++ \n"
-		decOK := regexp.MustCompile(`^(if (nz\(item\.curDepth\)|\(item\.curDepth != #0\)|\(#0 < item\.curDepth\))\n  )?assign item\.curDepth (-= #1|-- )\n$`).MatchString(decT)
+		cf := regexp.QuoteMeta(curF)
+		incOK := incT == "assign item."+curF+" += #1\n" || incT == "assign item."+curF+" ++ \n"
+		decOK := regexp.MustCompile(`^(if (nz\(item\.` + cf + `\)|\(item\.` + cf + ` != #0\)|\(#0 < item\.` + cf + `\))\n  )?assign item\.` + cf + ` (-= #1|-- )\n$`).MatchString(decT)
 		b.ob("random/depth-bracket-balanced", "RandGenerator.IncreaseDepth/DecreaseDepth", incOK && decOK, fmt.Sprintf("IncreaseDepth adds one unconditionally: %v; DecreaseDepth takes one back (optionally guarded against zero): %v", incOK, decOK))
 		// draws come only from the generator's source
 		for name, fi := range b.byName {
